@@ -10,7 +10,10 @@ INNER_PUNCT = [",", "\"", "'", ":", ";", "-", "#", ".", "(", ")", "%", "/", " ",
 LEAD_SPECIAL = ["=", "+", "@", "'", ",", "(", ".", " x", "　y", "*", "~", "$", "\\.", "!"]
 
 def word(r, lo=1, hi=7):
-    return "".join(r.choice(LETTERS) for _ in range(r.randint(lo, hi)))
+    w = "".join(r.choice(LETTERS) for _ in range(r.randint(lo, hi)))
+    x = r.random()
+    # mixed case: byte order ('Z' < 'a') differs from case-insensitive order
+    return w.capitalize() if x < 0.12 else w.upper() if x < 0.15 else w
 
 def name(r, fancy=0.35, allow_slash=True):
     """a well-formed entry/heading name: non-empty, no LF, ends outside the trim set, does not start with '#'"""
